@@ -152,7 +152,10 @@ def run_plan(plan, seed, choices=None):
         V.check('C41/downgrades')
         reachable = [i for i, nd in enumerate(plan['cluster']['nodes']) if not (plan.get('down') and plan['down']['node'] == i)]
         # whichever node is tried first, stepping down from the top reaches a version >= 3 it supports
-        usable = reachable if reachable and all(set(plan['cluster']['nodes'][i]['versions']) & set([3, 4, 5]) for i in reachable) else []
+        # (also for nodes that only speak 1 or 2: they frame their rejection of 3+ with an 8-byte v1/v2 header)
+        usable = reachable if reachable and all(set(plan['cluster']['nodes'][i]['versions']) & set([1, 2, 3, 4, 5]) for i in reachable) else []
+        if usable and not any(set(plan['cluster']['nodes'][i]['versions']) & set([3, 4, 5]) for i in usable):
+            sim.probe('only_v1_v2_nodes')
         if usable:
             V.add('C41/downgrades', 'gave-up-although-lower-version-supported',
                   'connect() failed with %s although node(s) %r support %r; versions tried: %r'
